@@ -177,7 +177,7 @@ func (obj *Hmm) BaumWelchStep(hmm1, hmm2 *Hmm, data HmmDataSet, meta ConstVector
   }
   // wait for all threads to finish
   if err := p.Wait(g); err != nil {
-    return math.Inf(-1), nil
+    return math.Inf(-1), err
   }
   // get some temporary variables
   t1 := NullFloat64()
